@@ -28,8 +28,12 @@ RULE = (
     "two distinct end points, lies on the input segment given by argsort and carries its tags, (b) no two output "
     "edges have the same end points, distinct output indices are distinct points, (c) any two output edges intersect "
     "in nothing or in exactly one point that is an end point of both (hence shared by index), (d) every input "
-    "segment is covered by the output edges lying on it (merged exact parameter intervals = [0,1]). Non-trivial = at "
-    "least one pair of input segments intersects; distinct = hash of spec."
+    "segment is covered by the output edges lying on it (merged exact parameter intervals = [0,1]). Second input "
+    "class (one case in three, label input-duplicated-points): the same segment sets, but an end point shared by "
+    "several segments is listed several times in the point array (bit-identical copies, each segment may refer to "
+    "its own copy, point order shuffled); for it everything is decided by the exact coordinates of the output "
+    "points: (a), (b) duplicates by coordinates, (c) and (d) as above, while index-uniqueness of output points is "
+    "not demanded. Non-trivial = at least one pair of input segments intersects; distinct = hash of spec."
 )
 BUDGET = {"quick": {"cases": 16000, "seconds": 35}, "thorough": {"cases": 600000, "seconds": 1100}}
 TECHNIQUE = "property-based testing (Hypothesis) with an exact rational-arithmetic validity oracle"
@@ -38,11 +42,15 @@ LEVEL_TEXT = ("Exploration: thousands of generated integer segment sets per run 
               "returned subdivision is reconstructed exactly and the four clauses of the property (non-crossing, "
               "covering, contained in the mapped input segment with its tags, no duplicates) are decided exactly.")
 LEVEL_NOTE = ("Integer coordinates (|x| <= ~16, up to 7 segments), so distinct intersection points are > 1e-6 apart and "
-              "the 1e-8 merge tolerance cannot change the answer. Input satisfies the callers' precondition (unique "
-              "points, unique non-degenerate edges). The tag_info output is not examined.")
+              "the 1e-8 merge tolerance cannot change the answer. Two input classes: uniquified points (what the callers "
+              "pass) and coincident, bit-identical copies of shared end points; edges are non-degenerate and no segment "
+              "is repeated. Points closer than the tolerance but not identical are not generated. The tag_info output "
+              "is not examined.")
 DESIGN_REF = "DESIGN.md section 4, C29"
 ASSUMPTIONS = [
-    "input points are pairwise distinct and every edge joins two different points; no repeated edge (callers uniquify)",
+    "class input-unique-points: input points pairwise distinct (callers uniquify); class input-duplicated-points: "
+    "shared end points may be repeated bit-identically in the point array",
+    "every edge joins two different coordinates; no segment (as a coordinate pair) is listed twice",
     "every point is used by at least one edge",
     "an output point that is neither an input point nor an exact pairwise intersection is reported (the function has "
     "no other source of points)",
@@ -50,11 +58,12 @@ ASSUMPTIONS = [
 REQUIRED = {
     "has-crossing": 0.15, "has-T": 0.15, "has-overlap": 0.1, "has-shared-endpoint": 0.15, "multi-through-point": 0.03,
     "no-intersection": 0.01, "tags0": 0.1, "tags1": 0.1, "tags2": 0.1, "dropped-duplicate-edge": 0.005,
+    "input-unique-points": 0.4, "input-duplicated-points": 0.2, "has-coincident-input-points": 0.1,
 }
 
 
 # ----------------------------------------------------------------------------- strategy
-def build(nseg, ntags, n):
+def build(nseg, ntags, n, dup=False):
     D = Digits(n)
     R = D.choice([2, 3, 4])
     a = D.vec(2, R)
@@ -81,12 +90,37 @@ def build(nseg, ntags, n):
             continue
         seen.add(key)
         edges.append([i, j] + [D.int(0, 5) for _ in range(ntags)])
-    return {"pts": pts, "edges": edges, "ntags": ntags, "dropped": dropped}
+    spec = {"pts": pts, "edges": edges, "ntags": ntags, "dropped": dropped}
+    if dup:
+        # Second input class: the same segments, but an end point that is used by several segments may be
+        # listed several times in the point array (bit-identical copies), each segment referring to its own
+        # copy; afterwards the point order is shuffled.  (Digits are read after everything above, so the
+        # uniquified class is generated exactly as before.)
+        use = {}
+        for e in edges:
+            for k in (0, 1):
+                use.setdefault(e[k], []).append((e, k))
+        pts2 = [list(q) for q in pts]
+        for i, refs in sorted(use.items()):
+            for (e, k) in refs[1:]:
+                if D.below(3) > 0:  # two times out of three this reference gets its own copy of the point
+                    pts2.append(list(pts[i]))
+                    e[k] = len(pts2) - 1
+        perm2 = D.perm(len(pts2))  # old index -> new index
+        new_pts = [None] * len(pts2)
+        for old, new in enumerate(perm2):
+            new_pts[new] = pts2[old]
+        for e in edges:
+            e[0], e[1] = perm2[e[0]], perm2[e[1]]
+        spec["pts"] = new_pts
+        spec["dup"] = True
+    return spec
 
 
 def strategy(tier):
     hi = 7 if tier == "quick" else 9
-    return st.builds(build, st.sampled_from([1] + 2 * list(range(2, hi + 1))), st.sampled_from([0, 1, 2]), big_int(480))
+    return st.builds(build, st.sampled_from([1] + 2 * list(range(2, hi + 1))), st.sampled_from([0, 1, 2]), big_int(640),
+                     st.sampled_from([False, False, True]))
 
 
 def warmup():
@@ -110,6 +144,10 @@ def check(s):
     # ---- exact candidate points: input points and pairwise intersections
     cand = set(P)
     labels = [f"tags{nt}", f"nseg{ns}"]
+    dup_class = bool(s.get("dup"))
+    labels.append("input-duplicated-points" if dup_class else "input-unique-points")
+    if len({tuple(q) for q in pts}) < len(pts):
+        labels.append("has-coincident-input-points")
     through = {}
     any_isect = False
     for i in range(ns):
@@ -171,6 +209,8 @@ def check(s):
         X[i] = clist[k]
     inv = {}
     for i, q in X.items():
+        if dup_class:
+            break  # index-uniqueness of the output points is only demanded for uniquified input
         require(q not in inv, "coincident-output-points",
                 lambda: f"output points {inv[q]} and {i} are the same point {[float(x) for x in q]}; pts={pts} edges={edges}")
         inv[q] = i
@@ -182,7 +222,8 @@ def check(s):
     seen = set()
     for k in range(ne):
         i, j = int(e_out[0, k]), int(e_out[1, k])
-        require(i != j, "zero-length-output-edge", lambda: f"edge {k} = ({i},{j}); {ctx}")
+        require(i != j and X[i] != X[j], "zero-length-output-edge",
+                lambda: f"edge {k} = ({i},{j}) joins {[float(x) for x in X[i]]} and {[float(x) for x in X[j]]}; {ctx}")
         src = int(argsort[k])
         a, b = segs[src]
         require(eg.point_on_segment(X[i], a, b) and eg.point_on_segment(X[j], a, b), "edge-not-on-source",
@@ -190,8 +231,11 @@ def check(s):
                         f"input segment {src}; {ctx}")
         require([int(t) for t in e_out[2:, k]] == [int(t) for t in edges[src][2:]], "wrong-tags",
                 lambda: f"output edge {k} has tags {e_out[2:, k].tolist()}, source {src} has {edges[src][2:]}; {ctx}")
-        key = (min(i, j), max(i, j))
-        require(key not in seen, "duplicate-output-edge", lambda: f"edge {key} occurs twice; {ctx}")
+        # duplicates are decided by the exact coordinates of the end points (for uniquified input this is the
+        # same as by index, because distinct output indices were shown to be distinct points above)
+        key = frozenset((X[i], X[j]))
+        require(key not in seen, "duplicate-output-edge",
+                lambda: f"edge {k} ({i},{j}) repeats an earlier edge with the same end points; {ctx}")
         seen.add(key)
         out_edges.append((i, j))
 
